@@ -80,6 +80,35 @@ def check(ctx: Ctx):
         ctx.check(ok, 'R20.2', fn.short, fn.loc(lp), f'level loop is range(self.{dens})',
                   f'the level loop of {fn.short} iterates {ast.unparse(it)}, not range(self.{dens}): the curve is '
                   f'not built to the configured density', key=f'R20.2::{fn.short}::level-loop')
+    # the object that generates the trial points works with the solver's own evolvent
+    ctx.rule('R20.5', 'the Method (and Process) of a Solver hold the Evolvent the Solver constructed with '
+                      'parameters.evolventDensity - never one that came from elsewhere (a restored / shared object)')
+    pta = ctx.pta
+    solver = ctx.ix.cls('Solver')
+    so = pta.inst_ext(solver)
+    own_ev = {o for o in pta.read_field(so, 'evolvent') if o.kind == 'inst' and o.cls is e.cls}
+    si0 = ctx.ix.func('Solver.__init__')
+    n5 = 0
+    for holder_field in ('method', 'process'):
+        hs = [h for h in pta.read_field(so, holder_field) if h.kind not in ('cls', 'func', 'bm', 'module')]
+        n5 += 1 if hs else 0
+        bad_h = [h for h in hs if not (h.kind == 'inst' and h.site.startswith(si0.module.relpath))]
+        foreign = []
+        for h in hs:
+            if h in bad_h:
+                continue
+            foreign += [x for x in pta.read_field(h, 'evolvent')
+                        if x.kind not in ('cls', 'func', 'bm', 'module') and x not in own_ev]
+        if True:
+            h = (bad_h or hs or [None])[0]
+            built_here = not bad_h
+            ctx.check(built_here and not foreign, 'R20.5', f'Solver.{holder_field}', si0.loc(),
+                      f'Solver.{holder_field} is built by the Solver and holds the Solver\'s own evolvent',
+                      f'Solver.{holder_field} can be an object that was not built by this Solver\'s constructor '
+                      f'({h.describe() if h is not None and bad_h else "-"}; {len(bad_h)} such objects) or can hold an evolvent other than the one constructed with '
+                      f'parameters.evolventDensity ({[x.describe() for x in foreign[:2]]}): trial points are then '
+                      f'generated on a grid of another density', key=f'R20.5::Solver.{holder_field}::foreign-evolvent')
+    ctx.floor('R20.5', 'holders of the evolvent in a Solver', n5, 2)
     # every trial point is an evolvent image (of the solver's evolvent): a trial built from anything else is not
     # on the grid whatever the density
     ctx.rule('R20.4', 'every search item the library constructs is Item(Point(GetImage(t)), t) (= R06.5), re-run here')
